@@ -61,8 +61,13 @@ DivLike  == {"div_eq", "mod_eq"}
 (* those over xoptional<int> (a "plain" xoptional<int> beside an xoptional<xoptional<int>> is itself a lifted     *)
 (* operand, of another value type)                                                                              *)
 PlainOK(ty) == ty \notin {"cpx", "nest"}
-Opd(l, h, x) == [l |-> l, h |-> h, x |-> x]
-OpdOK(p)  == p.l \in BOOLEAN /\ p.h \in BOOLEAN /\ p.x \in Nat /\ (~p.l => p.h)     \* a plain operand is always "present"
+(* c: the VALUE CATEGORY / constness under which the call names the operand: a const lvalue ("cl"), a non-const *)
+(* lvalue ("lv": an ordinary variable), an rvalue ("rv": a temporary, e.g. the result of another call).  The      *)
+(* property does not depend on it: every rule below demands the same answer for all of them.  (The target of a    *)
+(* compound assignment is a non-const lvalue by the language; its c is not looked at.)                              *)
+Cats == {"cl", "lv", "rv"}
+Opd(l, h, x, c) == [l |-> l, h |-> h, x |-> x, c |-> c]
+OpdOK(p)  == p.l \in BOOLEAN /\ p.h \in BOOLEAN /\ p.x \in Nat /\ (~p.l => p.h) /\ p.c \in Cats    \* a plain operand is always "present"
 AllHave(ps) == \A i \in 1..Len(ps) : ps[i].h
 SomeLifted(ps) == \E i \in 1..Len(ps) : ps[i].l
 
@@ -95,14 +100,33 @@ Compare(ty, f, ps, o) ==
        o.val = (IF (f = "eq") = e THEN "1" ELSE "0")
     /\ Do("Compare", [ty |-> ty, f |-> f, ps |-> ps], o)
 
-(* the same for xoptional<int, int>: the flag type is a free parameter and "a falsy flag means that the value is missing", *)
-(* so presence is the TRUTH of the flag (flags 1 and 4 both say "present")                                              *)
-CompareF(f, fx, fy, x, y, o) ==
-    /\ f \in CmpFuns /\ fx \in Nat /\ fy \in Nat /\ x \in Nat /\ y \in Nat
+(* FLAG TYPES.  The flag type is a free parameter of xoptional and "a falsy flag means that the value is missing", so *)
+(* presence is the TRUTH of the flag: flags 1, 2 and 4 all say "present".  An operand here is xoptional<int, FT> with  *)
+(* FT one of FlagTys (intref: xoptional<int&, int&> over the caller's cells, e.g. an element of a mask array), given   *)
+(* by its flag type t, its flag value f and the index x of its value.  The two operands of a call may have different   *)
+(* flag types (an operator result always carries a bool flag).                                                          *)
+FlagTys == {"bool", "int", "u8", "intref"}
+FOpd(t, f, x) == [t |-> t, f |-> f, x |-> x]
+FOpdOK(p) == p.t \in FlagTys /\ p.f \in 0..255 /\ (p.t = "bool" => p.f \in {0, 1}) /\ p.x \in Nat
+Truthy(p) == p.f # 0
+CompareF(f, p, q, o) ==
+    /\ f \in CmpFuns /\ FOpdOK(p) /\ FOpdOK(q)
     /\ LET ueq == (o.u = "1") = (f = "eq")
-           e == (fx = 0 /\ fy = 0) \/ (fx # 0 /\ fy # 0 /\ ueq) IN
+           e == (~Truthy(p) /\ ~Truthy(q)) \/ (Truthy(p) /\ Truthy(q) /\ ueq) IN
        o.val = (IF (f = "eq") = e THEN "1" ELSE "0")
-    /\ Do("CompareF", [f |-> f, fx |-> fx, fy |-> fy, x |-> x, y |-> y], o)
+    /\ Do("CompareF", [f |-> f, p |-> p, q |-> q], o)
+(* x op y on such operands: present iff both flags are truthy, then the underlying result *)
+FBinFuns == {"plus", "minus", "mul", "lt"}
+CallF(f, p, q, o) ==
+    /\ f \in FBinFuns /\ FOpdOK(p) /\ FOpdOK(q)
+    /\ Legal(o, Truthy(p) /\ Truthy(q))
+    /\ Do("CallF", [f |-> f, p |-> p, q |-> q], o)
+(* x op= y: the target is present afterwards iff both were *)
+FAsgFuns == {"plus_eq", "mul_eq", "div_eq"}
+CompoundF(f, p, q, o) ==
+    /\ f \in FAsgFuns /\ FOpdOK(p) /\ FOpdOK(q)
+    /\ LegalAsg(o, f, Truthy(p) /\ Truthy(q))
+    /\ Do("CompoundF", [f |-> f, p |-> p, q |-> q], o)
 
 Compound(ty, f, ps, o) ==
     /\ ty \in Tys /\ f \in AsgFuns[ty] /\ Len(ps) = 2 /\ \A i \in 1..2 : OpdOK(ps[i]) /\ ps[1].l
@@ -149,8 +173,13 @@ CanonObs(has) == [NoObs EXCEPT !.has = has]
 Init == last = [op |-> "Init", a |-> [z |-> 0], res |-> NoObs]
 
 Idx(ty) == 0..(NValOf[ty] - 1)
-Opds(ty) == {Opd(l, h, x) : l \in BOOLEAN, h \in BOOLEAN, x \in Idx(ty)}
+Opds(ty) == {Opd(l, h, x, "cl") : l \in BOOLEAN, h \in BOOLEAN, x \in Idx(ty)}
 GoodOpds(ty) == {p \in Opds(ty) : OpdOK(p) /\ (PlainOK(ty) \/ p.l)}
+(* every category: all table values for the right operand of a compound assignment, the first two for binary calls *)
+OpdsAC(ty) == {Opd(l, h, x, c) : l \in BOOLEAN, h \in BOOLEAN, x \in Idx(ty), c \in Cats}
+GoodOpdsAC(ty) == {p \in OpdsAC(ty) : OpdOK(p) /\ (PlainOK(ty) \/ p.l)}
+GoodOpdsC(ty) == {p \in GoodOpdsAC(ty) : p.x <= 1}
+NonCL(p, q) == p.c # "cl" \/ q.c # "cl"
 (* the model checker supplies an observation the rule accepts (values are the harness's business) *)
 NCall1 == \E ty \in MCTys : \E f \in UnFuns[ty], p \in GoodOpds(ty) :
               p.l /\ Call(ty, f, <<p>>, CanonObs(p.h))
@@ -162,11 +191,22 @@ NCompare == \E ty \in MCTys : \E f \in CmpFuns, p \in GoodOpds(ty), q \in GoodOp
               (p.l \/ q.l) /\ Compare(ty, f, <<p, q>>,
                     [NoObs EXCEPT !.u = IF (p.x = q.x) = (f = "eq") THEN "1" ELSE "0",
                                   !.val = IF (f = "eq") = ((~p.h /\ ~q.h) \/ (p.h /\ q.h /\ p.x = q.x)) THEN "1" ELSE "0"])
-NCompareF == \E f \in CmpFuns, fx \in {0, 1, 4}, fy \in {0, 1, 4}, x \in 0..2, y \in 0..2 :
-              CompareF(f, fx, fy, x, y,
-                    [NoObs EXCEPT !.u = IF (x = y) = (f = "eq") THEN "1" ELSE "0",
-                                  !.val = IF (f = "eq") = ((fx = 0 /\ fy = 0) \/ (fx # 0 /\ fy # 0 /\ x = y)) THEN "1" ELSE "0"])
-NCompound == \E ty \in MCTys : \E f \in AsgFuns[ty], p \in GoodOpds(ty), q \in GoodOpds(ty) :
+FVals(t) == IF t = "bool" THEN {0, 1} ELSE {0, 1, 2, 4}
+FOpds == {p \in {FOpd(t, f, x) : t \in FlagTys, f \in {0, 1, 2, 4}, x \in 0..1} : p.f \in FVals(p.t)}
+NCompareF == \E f \in CmpFuns, p \in FOpds, q \in FOpds :
+              CompareF(f, p, q,
+                    [NoObs EXCEPT !.u = IF (p.x = q.x) = (f = "eq") THEN "1" ELSE "0",
+                                  !.val = IF (f = "eq") = ((~Truthy(p) /\ ~Truthy(q)) \/ (Truthy(p) /\ Truthy(q) /\ p.x = q.x)) THEN "1" ELSE "0"])
+NCallF == \E f \in {"plus", "lt"}, p \in FOpds, q \in FOpds : CallF(f, p, q, CanonObs(Truthy(p) /\ Truthy(q)))
+NCompoundF == \E f \in {"plus_eq", "div_eq"}, p \in FOpds, q \in FOpds : (f = "div_eq" /\ Truthy(p) /\ Truthy(q) => q.x # 0) /\ CompoundF(f, p, q, CanonObs(Truthy(p) /\ Truthy(q)))
+(* the value categories of the operands of binary calls and comparisons *)
+NCall2C == \E ty \in MCTys : \E f \in BinFuns[ty], p \in GoodOpdsC(ty), q \in GoodOpdsC(ty) :
+              (p.l \/ q.l) /\ NonCL(p, q) /\ Call(ty, f, <<p, q>>, CanonObs(p.h /\ q.h))
+NCompareC == \E ty \in MCTys : \E f \in CmpFuns, p \in GoodOpdsC(ty), q \in GoodOpdsC(ty) :
+              (p.l \/ q.l) /\ NonCL(p, q) /\ Compare(ty, f, <<p, q>>,
+                    [NoObs EXCEPT !.u = IF (p.x = q.x) = (f = "eq") THEN "1" ELSE "0",
+                                  !.val = IF (f = "eq") = ((~p.h /\ ~q.h) \/ (p.h /\ q.h /\ p.x = q.x)) THEN "1" ELSE "0"])
+NCompound == \E ty \in MCTys : \E f \in AsgFuns[ty], p \in GoodOpds(ty), q \in GoodOpdsAC(ty) :
               p.l /\ Compound(ty, f, <<p, q>>, CanonObs(p.h /\ q.h))
 NExpr == \E ty \in MCTys : \E f \in {"plus", "mul"}, g \in {"minus", "mul"}, p \in GoodOpds(ty), q \in GoodOpds(ty), s \in GoodOpds(ty) :
               (q.l \/ s.l) /\ p.x <= 1 /\ q.x <= 2 /\ Expr(ty, f, g, <<p, q, s>>, CanonObs(p.h /\ q.h /\ s.h))
@@ -178,7 +218,7 @@ NEqualM == \E fam \in {"opt", "masked"}, p \in GoodOpds("dbit"), q \in GoodOpds(
                                   !.val = IF (~p.h /\ ~q.h) \/ (p.h /\ q.h /\ p.x = q.x) THEN "1" ELSE "0"])
 NFactory == \E how \in {"missing", "free_plain"}, x \in 0..1 : Factory(how, x, [NoObs EXCEPT !.has = (how = "free_plain")])
 
-Next == last.op = "Init" /\ (NCall1 \/ NCall2 \/ NCall3 \/ NCompare \/ NCompareF \/ NCompound \/ NExpr \/ NConv \/ NJson \/ NEqualM \/ NFactory)
+Next == last.op = "Init" /\ (NCall1 \/ NCall2 \/ NCall2C \/ NCall3 \/ NCompare \/ NCompareC \/ NCompareF \/ NCallF \/ NCompoundF \/ NCompound \/ NExpr \/ NConv \/ NJson \/ NEqualM \/ NFactory)
 Spec == Init /\ [][Next]_last
 
 Emit == EmitOn => PrintT("@X@" \o ToJson([op |-> last'.op, a |-> last'.a]))
@@ -188,6 +228,8 @@ Emit == EmitOn => PrintT("@X@" \o ToJson([op |-> last'.op, a |-> last'.a]))
 PropagationLaw == [][last'.op \in {"Call", "Compound", "Expr"} =>
                        (last'.res.has = \A i \in 1..Len(last'.a.ps) : last'.a.ps[i].h)]_last
 (* != is the negation of ==, == of two missing values holds, == of a missing and a present one does not *)
+(* with any flag type: the result is present exactly when both flags are truthy *)
+FlagLaw == [][last'.op \in {"CallF", "CompoundF"} => (last'.res.has = (last'.a.p.f # 0 /\ last'.a.q.f # 0))]_last
 EqualityLaw == [][last'.op = "Compare" =>
                     LET ps == last'.a.ps IN
                     /\ (~ps[1].h /\ ~ps[2].h) => (last'.res.val = IF last'.a.f = "eq" THEN "1" ELSE "0")
